@@ -23,7 +23,7 @@ fn cover_x<const Z: u8>() {
 	assert!((b.x_min as f64) > tw - 1.0 - 2e-6, "tile box starts more than one tile west of the box");
 	assert!((b.x_max as f64) < te + 2e-6 || b.x_max as f64 == zoom - 1.0 || b.x_max == b.x_min, "tile box ends east of the box");
 	kani::cover!(west == east);
-	kani::cover!(b.x_min != b.x_max);
+	kani::cover!(Z == 0 || b.x_min != b.x_max);
 }
 
 fn cover_y<const Z: u8>() {
@@ -37,7 +37,7 @@ fn cover_y<const Z: u8>() {
 	assert!(!b.is_empty(), "a valid geographic box maps to an empty tile box");
 	assert!(valid_bbox(&b) && b.level == Z);
 	kani::cover!(south == north);
-	kani::cover!(b.y_min != b.y_max);
+	kani::cover!(Z == 0 || b.y_min != b.y_max);
 }
 
 macro_rules! geo {
